@@ -1,4 +1,8 @@
-(** C11 (fragment F1): [parse_encode] for Name declarations and (nested) Device blocks.
+(** C11 (fragments F1 and F2): [parse_encode] for Name declarations, (nested) Device blocks and Method declarations.
+
+    F2 = F1 + [Method(SEG, flags){ items }]: a Method with a single-segment name whose body holds declarations of the
+    fragment only (Name / Device / Method, possibly none); productions: DefMethod (PkgLength, NameString = NameSeg,
+    MethodFlags, TermList of DefName / DefDevice / DefMethod).  F1 is the Method-free sub-fragment:
 
     The fragment: ONE table whose items are [Name(SEG, integer constant)] (as in F0) or
     [Device(SEG){ items }] with a single-segment name (no root / parent prefix, not written as a MultiNamePath),
@@ -21,6 +25,7 @@ Fixpoint item_ast (it : item) : ast :=
   match it with
   | IName d => decl_ast d
   | IDev k seg body => ADevice k (seg_name seg) (map item_ast body)
+  | IMeth k seg fl body => AMethod k (seg_name seg) fl (map item_ast body)
   end.
 
 Definition simple_name (nm : namestr) : option N :=
@@ -29,7 +34,7 @@ Definition simple_name (nm : namestr) : option N :=
   | _ => None
   end.
 
-Fixpoint f1_item (a : ast) : option item :=
+Fixpoint f2_item (a : ast) : option item :=
   match a with
   | AName nm (AConst op v) => match simple_name nm with Some seg => Some (IName (mkDecl seg op v)) | None => None end
   | ADevice k nm body =>
@@ -38,9 +43,22 @@ Fixpoint f1_item (a : ast) : option item :=
           match (fix go (l : list ast) : option (list item) :=
                    match l with
                    | [] => Some []
-                   | x :: t => match f1_item x, go t with Some i, Some r => Some (i :: r) | _, _ => None end
+                   | x :: t => match f2_item x, go t with Some i, Some r => Some (i :: r) | _, _ => None end
                    end) body with
           | Some b => Some (IDev k seg b)
+          | None => None
+          end
+      | None => None
+      end
+  | AMethod k nm fl body =>
+      match simple_name nm with
+      | Some seg =>
+          match (fix go (l : list ast) : option (list item) :=
+                   match l with
+                   | [] => Some []
+                   | x :: t => match f2_item x, go t with Some i, Some r => Some (i :: r) | _, _ => None end
+                   end) body with
+          | Some b => Some (IMeth k seg fl b)
           | None => None
           end
       | None => None
@@ -48,15 +66,25 @@ Fixpoint f1_item (a : ast) : option item :=
   | _ => None
   end.
 
-Fixpoint f1_items (l : list ast) : option (list item) :=
+Fixpoint f2_items (l : list ast) : option (list item) :=
   match l with
   | [] => Some []
-  | x :: t => match f1_item x, f1_items t with Some i, Some r => Some (i :: r) | _, _ => None end
+  | x :: t => match f2_item x, f2_items t with Some i, Some r => Some (i :: r) | _, _ => None end
   end.
+
+Definition in_fragment_F2 (tables : list (list ast)) : bool :=
+  match tables with
+  | [p] => match f2_items p with Some _ => lenN (encode_table p) <? 0x10000000 | None => false end
+  | _ => false
+  end.
+
+(** no Method anywhere *)
+Fixpoint no_meth (it : item) : bool :=
+  match it with IName _ => true | IDev _ _ body => forallb no_meth body | IMeth _ _ _ _ => false end.
 
 Definition in_fragment_F1 (tables : list (list ast)) : bool :=
   match tables with
-  | [p] => match f1_items p with Some _ => lenN (encode_table p) <? 0x10000000 | None => false end
+  | [p] => match f2_items p with Some its => forallb no_meth its && (lenN (encode_table p) <? 0x10000000) | None => false end
   | _ => false
   end.
 
@@ -70,35 +98,47 @@ Proof.
   intros E; inversion E. reflexivity.
 Qed.
 
-Lemma f1_item_ast : forall a it, f1_item a = Some it -> a = item_ast it.
+Lemma f2_item_ast : forall a it, f2_item a = Some it -> a = item_ast it.
 Proof.
-  fix IH 1. intros a it. destruct a as [ | | | | | | | | | | | | | k nm body | | | | | nm v | | | | | | ]; try discriminate.
-  - cbn [f1_item]. destruct (simple_name nm) as [seg|] eqn:En; [|discriminate]. apply simple_name_eq in En. subst nm.
+  fix IH 1. intros a it. destruct a as [ | | | | | | | | | | | | | k nm body | | | | k nm fl body | nm v | | | | | | ]; try discriminate.
+  - cbn [f2_item]. destruct (simple_name nm) as [seg|] eqn:En; [|discriminate]. apply simple_name_eq in En. subst nm.
     match goal with |- match ?go body with _ => _ end = _ -> _ => set (GO := go) end.
     assert (HL : forall l b, GO l = Some b -> l = map item_ast b).
     { induction l as [|x t IHt]; intros b Hb; cbn in Hb.
       - inversion Hb. reflexivity.
-      - destruct (f1_item x) as [i|] eqn:Ei; [|discriminate]. destruct (GO t) as [r|] eqn:Er; [|discriminate].
+      - destruct (f2_item x) as [i|] eqn:Ei; [|discriminate]. destruct (GO t) as [r|] eqn:Er; [|discriminate].
         inversion Hb; subst b. cbn [map]. rewrite (IH x i Ei), (IHt r eq_refl). reflexivity. }
     destruct (GO body) as [b|] eqn:Eb; [|discriminate]. intros E; inversion E; subst it. cbn [item_ast]. rewrite (HL body b Eb). reflexivity.
-  - cbn [f1_item]. destruct v; try discriminate. destruct (simple_name nm) as [seg|] eqn:En; [|discriminate]. apply simple_name_eq in En. subst nm.
+  - cbn [f2_item]. destruct (simple_name nm) as [seg|] eqn:En; [|discriminate]. apply simple_name_eq in En. subst nm.
+    match goal with |- match ?go body with _ => _ end = _ -> _ => set (GO := go) end.
+    assert (HL : forall l b, GO l = Some b -> l = map item_ast b).
+    { induction l as [|x t IHt]; intros b Hb; cbn in Hb.
+      - inversion Hb. reflexivity.
+      - destruct (f2_item x) as [i|] eqn:Ei; [|discriminate]. destruct (GO t) as [r|] eqn:Er; [|discriminate].
+        inversion Hb; subst b. cbn [map]. rewrite (IH x i Ei), (IHt r eq_refl). reflexivity. }
+    destruct (GO body) as [b|] eqn:Eb; [|discriminate]. intros E; inversion E; subst it. cbn [item_ast]. rewrite (HL body b Eb). reflexivity.
+  - cbn [f2_item]. destruct v; try discriminate. destruct (simple_name nm) as [seg|] eqn:En; [|discriminate]. apply simple_name_eq in En. subst nm.
     intros E; inversion E. reflexivity.
 Qed.
 
-Lemma f1_items_ast : forall p its, f1_items p = Some its -> p = map item_ast its.
+Lemma f2_items_ast : forall p its, f2_items p = Some its -> p = map item_ast its.
 Proof.
-  induction p as [|x t IH]; intros its Hp; cbn [f1_items] in Hp.
+  induction p as [|x t IH]; intros its Hp; cbn [f2_items] in Hp.
   - inversion Hp. reflexivity.
-  - destruct (f1_item x) as [i|] eqn:Ei; [|discriminate]. destruct (f1_items t) as [r|] eqn:Er; [|discriminate].
-    inversion Hp; subst its. cbn [map]. rewrite (f1_item_ast x i Ei), (IH r eq_refl). reflexivity.
+  - destruct (f2_item x) as [i|] eqn:Ei; [|discriminate]. destruct (f2_items t) as [r|] eqn:Er; [|discriminate].
+    inversion Hp; subst its. cbn [map]. rewrite (f2_item_ast x i Ei), (IH r eq_refl). reflexivity.
 Qed.
 
 (** ---- encoding ---- *)
 Lemma encode_item : forall it, encode (item_ast it) = enc_item it.
 Proof.
-  fix IH 1. intros [d|k seg body].
+  fix IH 1. intros [d|k seg body|k seg fl body].
   - apply encode_decl.
   - cbn [item_ast encode]. unfold enc_pkg. rewrite enc_seg_name, enc_dev.
+    assert (HL : flat_map encode (map item_ast body) = enc_items body).
+    { induction body as [|x t IHt]; [reflexivity|]. cbn [map flat_map]. rewrite IH, IHt. reflexivity. }
+    rewrite HL. reflexivity.
+  - cbn [item_ast encode]. unfold enc_pkg. rewrite enc_seg_name, enc_meth.
     assert (HL : flat_map encode (map item_ast body) = enc_items body).
     { induction body as [|x t IHt]; [reflexivity|]. cbn [map flat_map]. rewrite IH, IHt. reflexivity. }
     rewrite HL. reflexivity.
@@ -113,7 +153,7 @@ Proof. induction l as [|x t IH]; [reflexivity|]. cbn [flat_map]. rewrite lenN_ap
 
 Lemma wf_item e ms : forall it scope, wf_ast e ms scope (item_ast it) = true -> item_okb it = true.
 Proof.
-  fix IH 1. intros [d|k seg body] scope Hw.
+  fix IH 1. intros [d|k seg body|k seg fl body] scope Hw.
   - cbn [item_ast item_okb]. unfold decl_ast in Hw. cbn [wf_ast] in Hw.
     apply andb_prop in Hw. destruct Hw as [Hw _]. apply andb_prop in Hw. destruct Hw as [Hw Hc].
     apply andb_prop in Hw. destruct Hw as [Hn _].
@@ -142,6 +182,28 @@ Proof.
       generalize dependent (firstn (length scope - N.to_nat 0) scope ++ [seg]). intros sc Hall. clear Hk HL.
       induction body as [|x t IHt]; [reflexivity|]. cbn [map] in Hall. cbn in Hall. apply andb_prop in Hall. destruct Hall as [Hx Ht].
       cbn [forallb]. rewrite (IH x sc Hx). apply IHt. exact Ht.
+  - cbn [item_ast wf_ast] in Hw. cbn [item_okb].
+    apply andb_prop in Hw. destruct Hw as [Hw Hall]. apply andb_prop in Hw. destruct Hw as [Hw Hk]. apply andb_prop in Hw. destruct Hw as [Hn Hfl].
+    unfold name_ok in Hn. cbn [seg_name n_segs forallb] in Hn. apply andb_prop in Hn. destruct Hn as [_ Hn].
+    apply andb_prop in Hn. destruct Hn as [Hseg _].
+    unfold seg_ok, seg_bytes in Hseg. repeat (apply andb_prop in Hseg; destruct Hseg as [Hseg ?]).
+    rewrite sumlen_eq in Hk. rewrite enc_seg_name in Hk.
+    assert (HL : flat_map encode (map item_ast body) = enc_items body).
+    { clear. induction body as [|x t IHt]; [reflexivity|]. cbn [map flat_map]. rewrite encode_item, IHt. reflexivity. }
+    rewrite HL in Hk.
+    unfold decl_path, start_scope in Hall. cbn [seg_name n_root n_carets n_segs] in Hall.
+    destruct (lenN scope <? 0) eqn:E0; [apply N.ltb_lt in E0; lia|].
+    apply andb_true_intro. split; [apply andb_true_intro; split; [apply andb_true_intro; split; [apply andb_true_intro; split|]|]|].
+    + assumption.
+    + assumption.
+    + exact Hfl.
+    + unfold k_ok in Hk. unfold pkglen_okb.
+      replace (k + lenN (seg_bytes seg ++ [fl] ++ flat_map enc_item body)) with (k + (lenN (seg_bytes seg) + 1 + lenN (enc_items body))); [exact Hk|].
+      rewrite !lenN_app. change (lenN [fl]) with 1. unfold enc_items. lia.
+    + match type of Hall with ?all _ _ = true => set (ALL := all) in Hall end.
+      generalize dependent (firstn (length scope - N.to_nat 0) scope ++ [seg]). intros sc Hall. clear Hk HL.
+      induction body as [|x t IHt]; [reflexivity|]. cbn [map] in Hall. cbn in Hall. apply andb_prop in Hall. destruct Hall as [Hx Ht].
+      cbn [forallb]. rewrite (IH x sc Hx). apply IHt. exact Ht.
 Qed.
 
 Lemma wf_items e ms its : forallb (wf_ast e ms []) (map item_ast its) = true -> forallb item_okb its = true.
@@ -151,9 +213,12 @@ Proof.
 Qed.
 
 (** ---- the specification side ---- *)
+Lemma item_is_decl it : is_decl (item_ast it) = true.
+Proof. destruct it; reflexivity. Qed.
+
 Lemma entries_item e : forall it scope, entries e scope (item_ast it) = sentry scope it.
 Proof.
-  fix IH 1. intros [d|k seg body] scope.
+  fix IH 1. intros [d|k seg body|k seg fl body] scope.
   - cbn [item_ast sentry]. unfold decl_ast, name_entry. cbn [entries]. unfold decl_path, start_scope. cbn [n_root n_carets n_segs].
     destruct (lenN scope <? 0) eqn:E0; [apply N.ltb_lt in E0; lia|]. change (N.to_nat 0) with 0%nat. rewrite Nat.sub_0_r, firstn_all.
     cbn [r_expr]. unfold const_tokens, const_val, tok_const. destruct (const_bytes (d_op d)); reflexivity.
@@ -161,6 +226,14 @@ Proof.
     destruct (lenN scope <? 0) eqn:E0; [apply N.ltb_lt in E0; lia|]. change (N.to_nat 0) with 0%nat. rewrite Nat.sub_0_r, firstn_all.
     unfold dev_entry. cbn [app]. f_equal.
     generalize (scope ++ [seg]). intros sc. induction body as [|x t IHt]; [reflexivity|]. cbn [map flat_map]. rewrite IH, IHt. reflexivity.
+  - cbn [item_ast sentry entries]. unfold decl_path, start_scope. cbn [seg_name n_root n_carets n_segs].
+    destruct (lenN scope <? 0) eqn:E0; [apply N.ltb_lt in E0; lia|]. change (N.to_nat 0) with 0%nat. rewrite Nat.sub_0_r, firstn_all.
+    unfold meth_entry. cbn [app]. f_equal.
+    + f_equal. f_equal. f_equal. f_equal. f_equal. f_equal.
+      generalize (scope ++ [seg]). intros sc. unfold r_seq. induction body as [|x t IHt]; [reflexivity|]. cbn [map flat_map].
+      rewrite item_is_decl. cbn [orb app]. exact IHt.
+    + generalize (scope ++ [seg]). intros sc. induction body as [|x t IHt]; [reflexivity|]. cbn [map flat_map].
+      rewrite item_is_decl. cbn [orb]. rewrite IH, IHt. reflexivity.
 Qed.
 
 Lemma entries_items e its : flat_map (entries e []) (map item_ast its) = sentries [] its.
@@ -173,14 +246,14 @@ Proof.
   apply pget_lt in Py. lia.
 Qed.
 
-(** THE THEOREM for the fragment *)
-Theorem parse_encode_F1 : forall tables,
-  wf_program tables = true -> in_fragment_F1 tables = true -> parse_encode_statement tables.
+(** THE THEOREM for the fragment F2 *)
+Theorem parse_encode_F2 : forall tables,
+  wf_program tables = true -> in_fragment_F2 tables = true -> parse_encode_statement tables.
 Proof.
-  intros tables Hwf Hfr. unfold in_fragment_F1 in Hfr.
+  intros tables Hwf Hfr. unfold in_fragment_F2 in Hfr.
   destruct tables as [|p [|p2 rest]]; try discriminate.
-  destruct (f1_items p) as [its|] eqn:Eits; [|discriminate]. apply N.ltb_lt in Hfr.
-  pose proof (f1_items_ast p its Eits) as ->.
+  destruct (f2_items p) as [its|] eqn:Eits; [|discriminate]. apply N.ltb_lt in Hfr.
+  pose proof (f2_items_ast p its Eits) as ->.
   unfold wf_program in Hwf. cbn [wf_tables app] in Hwf. apply andb_prop in Hwf. destruct Hwf as [Hwf _].
   pose proof (wf_items _ _ its Hwf) as Hok.
   rewrite encode_items in Hfr.
@@ -192,3 +265,14 @@ Proof.
   unfold ns. cbn [flat_map]. rewrite app_nil_r, entries_items.
   f_equal. apply sort_perm. apply ventries_perm.
 Qed.
+
+(** F1 is the Method-free part of F2 *)
+Lemma in_F1_F2 tables : in_fragment_F1 tables = true -> in_fragment_F2 tables = true.
+Proof.
+  unfold in_fragment_F1, in_fragment_F2. destruct tables as [|p [|p2 rest]]; try discriminate.
+  destruct (f2_items p) as [its|]; [|discriminate]. intros H. apply andb_prop in H. apply H.
+Qed.
+
+Theorem parse_encode_F1 : forall tables,
+  wf_program tables = true -> in_fragment_F1 tables = true -> parse_encode_statement tables.
+Proof. intros tables Hwf Hfr. apply parse_encode_F2; [exact Hwf|apply in_F1_F2; exact Hfr]. Qed.
